@@ -266,12 +266,47 @@ func (w *World) beginBlock(gap time.Duration) opResult {
 		}
 	}
 	_ = prev
-	// burn amounts of disputes that may be executed in this block
-	return w.blockFn("BeginBlock", []*big.Int{bi(ini), bi(prevNs), bi(w.now.UnixNano())},
+	notExecuted := map[uint64]bool{}
+	_ = w.s.Disputekeeper.Votes.Walk(w.ctx, nil, func(id uint64, v disputetypes.Vote) (bool, error) {
+		if !v.Executed {
+			notExecuted[id] = true
+		}
+		return false, nil
+	})
+	res := w.blockFn("BeginBlock", []*big.Int{bi(ini), bi(prevNs), bi(w.now.UnixNano())},
 		func(ctx sdk.Context) error { return mint.BeginBlocker(ctx, w.s.Mintkeeper) },
 		func(ctx sdk.Context) error { return w.s.Stakingkeeper.BeginBlocker(ctx) },
 		func(ctx sdk.Context) error { return dispute.BeginBlocker(ctx, w.s.Disputekeeper) },
 	)
+	// the disputes this begin blocker executed: (id, burn amount of the record, flags: 1 = no voting power was cast in
+	// any round, 2 = a later round of the same dispute exists)
+	if res.result == 0 {
+		func() {
+			defer func() { _ = recover() }()
+			var all []disputetypes.Dispute
+			_ = w.s.Disputekeeper.Disputes.Walk(w.ctx, nil, func(_ uint64, d disputetypes.Dispute) (bool, error) {
+				all = append(all, d)
+				return false, nil
+			})
+			for _, d := range all {
+				v, err := w.s.Disputekeeper.Votes.Get(w.ctx, d.DisputeId)
+				if err != nil || !v.Executed || !notExecuted[d.DisputeId] {
+					continue
+				}
+				flags := int64(0)
+				if tot, err := w.s.Disputekeeper.GetSumOfAllGroupVotesAllRounds(w.ctx, d.DisputeId); err == nil && tot.IsZero() {
+					flags |= 1
+				}
+				for _, o := range all {
+					if string(o.HashId) == string(d.HashId) && o.DisputeId > d.DisputeId {
+						flags |= 2
+					}
+				}
+				res.params = append(res.params, new(big.Int).SetUint64(d.DisputeId), d.BurnAmount.BigInt(), bi(flags))
+			}
+		}()
+	}
+	return res
 }
 
 func (w *World) endBlock() opResult {
@@ -1003,7 +1038,7 @@ func (w *World) genClaimOp(a int) genOp {
 			return err
 		}}
 	case 1:
-		return genOp{name: "ClaimReward", signer: a, params: []*big.Int{new(big.Int).SetUint64(id)}, run: func(ctx sdk.Context) error {
+		return genOp{name: "ClaimReward", signer: a, params: []*big.Int{new(big.Int).SetUint64(id), w.voterPot(id)}, run: func(ctx sdk.Context) error {
 			_, err := w.disputeMS.ClaimReward(ctx, &disputetypes.MsgClaimReward{CallerAddress: addr, DisputeId: id})
 			return err
 		}}
@@ -1018,6 +1053,15 @@ func (w *World) genClaimOp(a int) genOp {
 			return err
 		}}
 	}
+}
+
+// the voter-reward pot the executed dispute set aside (0 before execution: a claim is then refused)
+func (w *World) voterPot(id uint64) *big.Int {
+	d, err := w.s.Disputekeeper.Disputes.Get(w.ctx, id)
+	if err != nil || d.VoterReward.IsNil() {
+		return bi(0)
+	}
+	return d.VoterReward.BigInt()
 }
 
 // privileged messages: by the governance authority (accepted transactions) or by somebody else
